@@ -214,6 +214,9 @@ impl Tr {
                     BinOp::Mul(_) => format!("({} * {})", l, r),
                     BinOp::Div(_) => format!("({} / {})", l, r),
                     BinOp::Rem(_) => format!("({} % {})", l, r),
+                    // shifts by a literal only (the result must fit the type: not checked here)
+                    BinOp::Shl(_) if r.chars().all(|c| c.is_ascii_digit()) => format!("({} * 2 ^ {})", l, r),
+                    BinOp::Shr(_) if r.chars().all(|c| c.is_ascii_digit()) => format!("({} / 2 ^ {})", l, r),
                     BinOp::Eq(_) => format!("({} == {})", l, r),
                     BinOp::Ne(_) => format!("({} != {})", l, r),
                     BinOp::Lt(_) => format!("(decide ({} < {}))", l, r),
